@@ -137,13 +137,49 @@ fn expr(e: &Expr) -> Value {
         Expr::Tuple(t) => var("Expr", "Tuple", vec![node("ExprTuple", vec![("attrs", attrs(&t.attrs)), ("elems", list(t.elems.iter(), |a| expr(a)))])]),
         Expr::Array(t) => var("Expr", "Array", vec![node("ExprArray", vec![("attrs", attrs(&t.attrs)), ("elems", list(t.elems.iter(), |a| expr(a)))])]),
         Expr::Group(p) => var("Expr", "Group", vec![node("ExprGroup", vec![("attrs", attrs(&p.attrs)), ("expr", expr(&p.expr))])]),
+        Expr::Block(b) => var("Expr", "Block", vec![node("ExprBlock", vec![("attrs", attrs(&b.attrs)), ("block", block(&b.block))])]),
+        Expr::Unsafe(b) => var("Expr", "Unsafe", vec![node("ExprUnsafe", vec![("attrs", attrs(&b.attrs)), ("block", block(&b.block))])]),
+        Expr::Loop(b) => var("Expr", "Loop", vec![node("ExprLoop", vec![("attrs", attrs(&b.attrs)), ("body", block(&b.body))])]),
+        Expr::While(b) => var("Expr", "While", vec![node("ExprWhile", vec![("attrs", attrs(&b.attrs)), ("cond", expr(&b.cond)), ("body", block(&b.body))])]),
+        Expr::ForLoop(b) => var("Expr", "ForLoop", vec![node("ExprForLoop", vec![("attrs", attrs(&b.attrs)), ("expr", expr(&b.expr)), ("body", block(&b.body))])]),
+        Expr::If(b) => var("Expr", "If", vec![node("ExprIf", vec![("attrs", attrs(&b.attrs)), ("cond", expr(&b.cond)), ("then_branch", block(&b.then_branch)),
+            ("else_branch", opt(&b.else_branch, |(_, e)| expr(e)))])]),
+        Expr::Closure(c) => var("Expr", "Closure", vec![node("ExprClosure", vec![("attrs", attrs(&c.attrs)), ("body", expr(&c.body))])]),
+        Expr::Match(m) => var("Expr", "Match", vec![node("ExprMatch", vec![("attrs", attrs(&m.attrs)), ("expr", expr(&m.expr)),
+            ("arms", list(m.arms.iter(), |a| node("Arm", vec![("attrs", attrs(&a.attrs)), ("guard", opt(&a.guard, |(_, g)| expr(g))), ("body", expr(&a.body))])))])]),
+        Expr::Return(r) => var("Expr", "Return", vec![node("ExprReturn", vec![("attrs", attrs(&r.attrs)), ("expr", opt(&r.expr, |e| expr(e)))])]),
+        Expr::Let(l) => var("Expr", "Let", vec![node("ExprLet", vec![("attrs", attrs(&l.attrs)), ("expr", expr(&l.expr))])]),
+        Expr::Async(b) => var("Expr", "Async", vec![node("ExprAsync", vec![("attrs", attrs(&b.attrs)), ("block", block(&b.block))])]),
         Expr::Reference(p) => var("Expr", "Reference", vec![node("ExprReference", vec![("attrs", attrs(&p.attrs)), ("expr", expr(&p.expr))])]),
         other => {
             let name = format!("{:?}", other);
-            let vname = name.split(|c: char| !c.is_alphanumeric()).nth(1).unwrap_or("Verbatim").to_string();
+            let vname = name.split(|c: char| !c.is_alphanumeric()).filter(|x| !x.is_empty()).nth(1).unwrap_or("Verbatim").to_string();
             json!({"t": "Expr", "v": vname, "a": [{"t": "Opaque", "text": quote::ToTokens::to_token_stream(other).to_string()}]})
         }
     }
+}
+
+fn block(b: &Block) -> Value {
+    node("Block", vec![("stmts", list(b.stmts.iter(), |s| stmt(s)))])
+}
+
+fn stmt(s: &Stmt) -> Value {
+    match s {
+        Stmt::Local(l) => var("Stmt", "Local", vec![node("Local", vec![("attrs", attrs(&l.attrs)),
+            ("init", opt(&l.init, |i| node("LocalInit", vec![("expr", expr(&i.expr)), ("diverge", opt(&i.diverge, |(_, e)| expr(e)))])))])]),
+        Stmt::Item(i) => var("Stmt", "Item", vec![item(i)]),
+        Stmt::Expr(e, semi) => var("Stmt", "Expr", vec![expr(e), json!(semi.is_some())]),
+        Stmt::Macro(m) => var("Stmt", "Macro", vec![json!({"t": "Opaque", "text": quote::ToTokens::to_token_stream(m).to_string()})]),
+    }
+}
+
+fn signature(sg: &Signature) -> Value {
+    node("Signature", vec![("ident", ident(&sg.ident)), ("generics", generics(&sg.generics)),
+        ("inputs", list(sg.inputs.iter(), |a| match a {
+            FnArg::Typed(pt) => var("FnArg", "Typed", vec![node("PatType", vec![("attrs", attrs(&pt.attrs)), ("ty", ty(&pt.ty))])]),
+            FnArg::Receiver(r) => var("FnArg", "Receiver", vec![json!({"t": "Opaque", "text": quote::ToTokens::to_token_stream(r).to_string()})]),
+        })),
+        ("output", match &sg.output { ReturnType::Default => var("ReturnType", "Default", vec![]), ReturnType::Type(_, t) => var("ReturnType", "Type", vec![json!(true), ty(t)]) })])
 }
 
 fn meta(m: &Meta) -> Value {
@@ -212,11 +248,21 @@ fn item(i: &Item) -> Value {
         Item::Mod(m) => var("Item", "Mod", vec![node("ItemMod", vec![("attrs", attrs(&m.attrs)), ("ident", ident(&m.ident)),
             ("content", opt(&m.content, |(_, items)| list(items.iter(), |i| item(i))))])]),
         Item::Use(u) => var("Item", "Use", vec![node("ItemUse", vec![("attrs", attrs(&u.attrs)), ("leading_colon", json!(u.leading_colon.is_some())), ("tree", use_tree(&u.tree))])]),
+        Item::Fn(f) => var("Item", "Fn", vec![node("ItemFn", vec![("attrs", attrs(&f.attrs)), ("vis", json!(quote::ToTokens::to_token_stream(&f.vis).to_string())),
+            ("sig", signature(&f.sig)), ("block", block(&f.block))])]),
+        Item::Impl(im) => var("Item", "Impl", vec![node("ItemImpl", vec![("attrs", attrs(&im.attrs)), ("generics", generics(&im.generics)), ("self_ty", ty(&im.self_ty)),
+            ("items", list(im.items.iter(), |ii| match ii {
+                ImplItem::Fn(f) => var("ImplItem", "Fn", vec![node("ImplItemFn", vec![("attrs", attrs(&f.attrs)), ("vis", json!(quote::ToTokens::to_token_stream(&f.vis).to_string())),
+                    ("sig", signature(&f.sig)), ("block", block(&f.block))])]),
+                other => { let name = format!("{:?}", other);
+                    let vname = name.split(|c: char| !c.is_alphanumeric()).filter(|x| !x.is_empty()).nth(1).unwrap_or("Verbatim").to_string();
+                    json!({"t": "ImplItem", "v": vname, "a": [{"t": "Opaque", "text": quote::ToTokens::to_token_stream(other).to_string()}]}) }
+            }))])]),
         Item::Union(u) => var("Item", "Union", vec![node("ItemUnion", vec![("attrs", attrs(&u.attrs)), ("ident", ident(&u.ident)), ("generics", generics(&u.generics)),
             ("fields", node("FieldsNamed", vec![("named", list(u.fields.named.iter(), |x| field(x)))]))])]),
         other => {
             let name = format!("{:?}", other);
-            let vname = name.split(|c: char| !c.is_alphanumeric()).nth(1).unwrap_or("Verbatim").to_string();
+            let vname = name.split(|c: char| !c.is_alphanumeric()).filter(|x| !x.is_empty()).nth(1).unwrap_or("Verbatim").to_string();
             json!({"t": "Item", "v": vname, "a": [{"t": "Opaque", "text": quote::ToTokens::to_token_stream(other).to_string()}]})
         }
     }
